@@ -129,6 +129,13 @@ def run(tier, seed):
                 npairs += lib.check_equiv(V, r1, r2, "d %s a == d %s double(a) (written operand order)" % (op, op), site="operator" + op)
             except Broken as e:
                 V.broke("%s/%s/double: %s" % (cfg, nm, e))
+    # the long long / unsigned long long spellings of the 64-bit operand are distinct types on LP64: same programs as int64_t / uint64_t
+    from . import spell
+    for cfg_ in (configs[:1] if tier == "quick" else configs):
+        try:
+            spell.check(V, cfg_, "mixed", "mixed operators")
+        except Broken as e:
+            V.broke("spellings %s: %s" % (cfg_, e))
     expl = ("For each of the 9 non-double carriers x 4 operators x 2 operand orders, the inlined mixed-type operator and the inlined "
             "'promote explicitly, then fixed op fixed' program are compared path pair by path pair over the box on which the conversion is not "
             "NaN: on every jointly feasible pair the returned forms are identical (value numbering makes the converted operand one shared "
@@ -138,5 +145,6 @@ def run(tier, seed):
             "multiplication commute bit for bit on non-NaN operands). a op= t is compared with a op t for all 36 compound forms; result types "
             "are decided by static_assert witnesses compiled with clang++ and g++.")
     V.cover["programs"] = V.cover.get("programs", 0)
+    expl = expl + ' The `long long` / `unsigned long long` spellings of a 64-bit integral operand (distinct types on LP64) are compared with the int64_t / uint64_t wrappers by summary equivalence; spellings the library does not compile for are listed in the evidence as not defined.'
     return V.finish("translation_validation", expl, "./fx check C16 --tier %s" % tier, extra={"configs": configs, "wrapper_pairs_compared": npairs},
                     assumptions=["NaN payload propagation order of IEEE + and * is not modelled"])
